@@ -50,6 +50,7 @@ const (
 
 // Entry is one stored item. Deadline < 0 means never expires.
 type Entry struct {
+	Cas      uint64 // memcached's per-item version: new on every mutation, returned in replies, honoured in requests
 	Flags    uint32
 	Value    []byte
 	RawExp   uint32 // exptime argument of the request that last set the deadline
@@ -68,6 +69,7 @@ type Req struct {
 	Now    int64
 	Opaque uint32
 	Status uint16 // status replied (0xffff if no reply: quiet miss or fault)
+	Cas    uint64 // CAS field of the request header (rend always sends 0 = unconditional)
 }
 
 // FaultKind enumerates injected faults.
@@ -98,6 +100,7 @@ type Server struct {
 	log       []Req
 	LogOn     bool
 	seq       int
+	casCtr    uint64 // last CAS value handed out (starts well above 0: low bytes non-zero)
 	faults    map[int]Fault
 	// Gate, when set, is called before each request is processed (after it was read).
 	Gate      func(conn int, r *Req)
@@ -109,7 +112,7 @@ type Server struct {
 }
 
 func New() *Server {
-	return &Server{data: map[string]*Entry{}, faults: map[int]Fault{}, conns: map[int]io.Closer{}, LogOn: true}
+	return &Server{data: map[string]*Entry{}, faults: map[int]Fault{}, conns: map[int]io.Closer{}, LogOn: true, casCtr: 0x0102030405060708}
 }
 
 func (s *Server) SetNow(t int64) { s.mu.Lock(); s.now = t; s.mu.Unlock() }
@@ -159,7 +162,14 @@ func (s *Server) TakeLog() []Req {
 func (s *Server) Evict(key string) { s.mu.Lock(); delete(s.data, key); s.mu.Unlock() }
 
 // Put stores an entry directly (test setup).
-func (s *Server) Put(key string, e Entry) { s.mu.Lock(); c := e; s.data[key] = &c; s.mu.Unlock() }
+func (s *Server) Put(key string, e Entry) {
+	s.mu.Lock()
+	c := e
+	s.casCtr++
+	c.Cas = s.casCtr
+	s.data[key] = &c
+	s.mu.Unlock()
+}
 
 // Dump returns a copy of the live entries at the server's current time.
 func (s *Server) Dump() map[string]Entry {
@@ -314,7 +324,7 @@ func (s *Server) serve(c io.ReadWriteCloser, id int) {
 		key := string(body[extlen : extlen+keylen])
 		val := body[extlen+keylen:]
 
-		req := Req{Conn: id, Op: op, Key: key, ValLen: len(val), Opaque: opaque, Status: 0xffff}
+		req := Req{Conn: id, Op: op, Key: key, ValLen: len(val), Opaque: opaque, Status: 0xffff, Cas: binary.BigEndian.Uint64(hdr[16:24])}
 		switch op {
 		case OpSet, OpAdd, OpReplace:
 			if extlen >= 8 {
@@ -421,10 +431,28 @@ func (s *Server) apply(q *Req, val []byte) []byte {
 	}
 	okr := func(ext, v []byte) []byte {
 		q.Status = StOK
-		return respond(q.Op, StOK, q.Opaque, ext, v)
+		rep := respond(q.Op, StOK, q.Opaque, ext, v)
+		// like memcached, a successful reply carries the item's CAS
+		if cur, ok := s.data[q.Key]; ok && len(rep) >= 24 && q.Op != OpDelete && q.Op != OpNoop {
+			binary.BigEndian.PutUint64(rep[16:24], cur.Cas)
+		}
+		return rep
 	}
 	store := func() {
-		s.data[q.Key] = &Entry{Flags: q.Flags, Value: append([]byte(nil), val...), RawExp: q.Exp, Deadline: norm(now, q.Exp)}
+		s.casCtr++
+		s.data[q.Key] = &Entry{Cas: s.casCtr, Flags: q.Flags, Value: append([]byte(nil), val...), RawExp: q.Exp, Deadline: norm(now, q.Exp)}
+	}
+	// a non-zero CAS in a mutating request makes it conditional, as in memcached
+	if q.Cas != 0 {
+		switch q.Op {
+		case OpSet, OpReplace, OpAppend, OpPrepend, OpDelete:
+			if !live {
+				return fail(StNotFound)
+			}
+			if e.Cas != q.Cas {
+				return fail(StExists)
+			}
+		}
 	}
 	switch q.Op {
 	case OpSet:
@@ -453,6 +481,8 @@ func (s *Server) apply(q *Req, val []byte) []byte {
 			nv = append(append([]byte(nil), val...), e.Value...)
 		}
 		e.Value = nv
+		s.casCtr++
+		e.Cas = s.casCtr
 		return okr(nil, nil)
 	case OpDelete:
 		if !live {
